@@ -125,7 +125,20 @@ def displaced_crystals(ctx):
     for x in (0.3, 0.27, 0.34):
         c = crystal.Crystal(np.eye(2), [[np.zeros(2)], [np.array([x, 0.]), np.array([-x, 0.]), np.array([0., x]), np.array([0., -x])]], chemistry=['A', 'i'])
         sq.append(('square-x00(x=%g)' % x, c, 1, 0.62))
-    for family in (fam, sq):
+    # monoclinic, sites on the mirror plane (free in-plane parameters), as given and rigidly rotated (mirror normal tilted)
+    ml = np.array([[1.0, 0.3, 0.0], [0.0, 1.1, 0.0], [0.0, 0.0, 1.2]])
+    th, ph = math.radians(30.0), math.radians(20.0)
+    Ry = np.array([[math.cos(th), 0., math.sin(th)], [0., 1., 0.], [-math.sin(th), 0., math.cos(th)]])
+    Rz = np.array([[math.cos(ph), -math.sin(ph), 0.], [math.sin(ph), math.cos(ph), 0.], [0., 0., 1.]])
+    monos = []
+    for tilt in (False, True):
+        famm = []
+        for (x, y) in ((.375, .25), (.39, .265), (.36, .23)):
+            basis = [[np.zeros(3)], [np.array([x, y, 0.]), np.array([1 - x, 1 - y, 0.]), np.array([.125, .5, .5]), np.array([.875, .5, .5])]]
+            c = crystal.Crystal((Rz @ Ry @ ml) if tilt else ml, basis, chemistry=['M', 'i'], noreduce=True)
+            famm.append(('mono-mirror-sites%s(x=%g,y=%g)' % ('-tilted' if tilt else '', x, y), c, 1, 0.8))
+        monos.append(famm)
+    for family in [fam, sq] + monos:
         ref = None
         for name, crys, chem, cutoff in family:
             sl = crys.sitelist(chem); jn = crys.jumpnetwork(chem, cutoff)
